@@ -11,15 +11,16 @@ pub use cgt_money::{Currency, CurrencyAmount};
 
 /// Serialize a Decimal to at most 2 decimal places for monetary amounts.
 mod decimal_money {
-    use rust_decimal::Decimal;
+    use rust_decimal::{Decimal, RoundingStrategy};
     use serde::{self, Serialize, Serializer};
 
     pub fn serialize<S>(value: &Decimal, serializer: S) -> Result<S::Ok, S::Error>
     where
         S: Serializer,
     {
-        // Round to 2 decimal places for display
-        let rounded = value.round_dp(2);
+        // Round to 2 decimal places for display, midpoints away from zero like the text report
+        // (`round_dp` alone rounds half to even: 16.005 -> 16.00 while the text shows £16.01)
+        let rounded = value.round_dp_with_strategy(2, RoundingStrategy::MidpointAwayFromZero);
         serializer.serialize_str(&rounded.to_string())
     }
 
@@ -31,7 +32,9 @@ mod decimal_money {
         where
             S: Serializer,
         {
-            let rounded = self.0.round_dp(2);
+            let rounded = self
+                .0
+                .round_dp_with_strategy(2, RoundingStrategy::MidpointAwayFromZero);
             serializer.serialize_str(&rounded.to_string())
         }
     }
